@@ -283,6 +283,14 @@ theorem apply_removed_marked {s s' : St} {o : Op} {id : Nat} {r : Rollapp} {a : 
     rcases markObsolete_unbonds h e id a hps with h1 | h1
     · exact absurd h1 hne
     · exact h1.marked
+
+  | punish au a' rw => exact contra (punish_frame h.core.uniq (punishProposal_ok e).2).psame
+  | transferOwner sg ra' no =>
+    obtain ⟨r1, hg1, _, _, _, rfl⟩ := transferOwner_ok e
+    exact contra (psame_setRa (r0 := r1) hg1 (by rfl) (by rfl))
+  | setSeqParams au sp =>
+    obtain ⟨_, hnp, _, rfl⟩ := setSeqParams_ok e
+    exact contra (PSame.of_ras rfl)
   | begin_ dt => simp only [apply] at e; injection e with e; subst e; exact contra (beginBlock_psame s dt)
   | end_ f => simp only [apply] at e; injection e with e; subst e; exact contra (endBlock_frame h.core.uniq).psame
 
